@@ -230,9 +230,47 @@ pub fn corpus_paragraphs() -> Vec<String> {
             out.push(cur);
         }
     }
+    out.extend(DOCS.iter().map(|d| d.to_string()));
     out.retain(|p| p.len() <= 1200);
     out
 }
+
+/// Paragraphs with the structure of real documents that the repository's own
+/// prose does not contain (embedded, so that they are there whatever /repo holds).
+pub const DOCS: &[&str] = &[
+    "Visit https://crates.io/ for more crates and https://docs.rs/ for their documentation.",
+    "See https://downloads.example-project.org/stable/my-app-installer-x86_64-linux.tar.gz or [the docs](https://docs.example-project.org/en/latest/getting-started/first-steps.html) for details.",
+    "1. Internationalization support is planned for the next release.",
+    "12) Install the toolchain with rustup, then run cargo build --release --no-default-features --features unicode-linebreak,smawk",
+    "The report compares the pre- and post-processing steps of two- or three-line paragraphs, left- and right-aligned.",
+    "We ported the tokenizer from C++ to Rust and the bindings from C# to plain C last year => 100% done <br>",
+    "Released on 2024-01-15 at 12:30:45 as v1.2.3-rc.1 (build 550e8400-e29b-41d4-a716-446655440000) for x86_64-unknown-linux-gnu",
+    "Fête nationale: 1789-07-14 ; Ça va ? Quelle belle journée ! « Oui ; entrez » total = f( x )",
+    "de ad be ef 00 01 02 03 ca fe ba be 10 20 30 40",
+    "ATG GCC ATT GTA ATG GGC CGC TGA AAG GGT GCC CGA",
+    "la la la la la la la la la",
+    "DE89 3704 0044 0532 0130 00",
+    "あいうえおかきくけこさし",
+    "こんにちは\u{3000}世界のみなさん\u{3000}お元気ですか\u{3000}またあした",
+    "こんにちは、世界！今日はいい天気ですね。",
+    "Ｈｅｌｌｏ, Ｗｏｒｌｄ! 🎉🎉🎉 Version 1.2.3 🎉🎉🎉",
+    "Happy birthday from all of us 👨\u{200d}👩\u{200d}👧\u{200d}👦 see you on Sunday! Thanks! 👍🏽 We ❤\u{fe0f} Rust ⚠\u{fe0f} 1\u{fe0f}\u{20e3} run 2\u{fe0f}\u{20e3} test 🇩🇰🇸🇪",
+    "reviewers:👩\u{200d}💻👩\u{200d}💻👩\u{200d}💻👩\u{200d}💻 Zoo day 👨\u{200d}👩\u{200d}👧\u{200d}👦👨\u{200d}👩\u{200d}👧\u{200d}👦 was fun",
+    "السلام عليكم لا إله إلا الله שלום עולם नमस्ते दुनिया สวัสดีชาวโลก",
+    "\tcargo build --release\t# tab-indented recipe",
+    "name\tversion\tlicense\tdescription",
+    "CC\tthe C compiler used to build the objects",
+    "Key:\tvalue with a tab and a trailing carriage return\r",
+    "warning: unknown option --frobnicate, did you mean --frob-level=3? use -o out -> file",
+    "\u{1b}[1;31merreur\u{1b}[0m: fichier introuvable « données.csv » \u{1b}[32m--no-default-features\u{1b}[0m",
+    "\u{1b}[33m3f2c9a7be01d4c5566a8e9f0b1c2d3e4f5a6b7c8\u{1b}[m Merge branch \u{1b}[1mwell-known\u{1b}[0m into state-of-the-art",
+    "\u{1b}]8;;https://github.com/rust-lang/rust-by-example\u{1b}\\rust-by-example\u{1b}]8;;\u{1b}\\ and \u{1b}]8;;file://srv/share/doc\u{7}a link\u{1b}]8;;\u{7} in a sentence",
+    "\u{1b}[1mbold\u{1b}(B\u{1b}[m text after tput sgr0",
+    "| Column one | Column two | 80 | and a `code span` with **bold** and _emph_ |",
+    "+added line in C++ ... to be continued... 100% <https://docs.rs/textwrap/>",
+    "AbstractSingletonProxyFactoryBean TransactionAwareDataSourceProxy InternalFrameInternalFrameTitlePaneInternalFrameTitlePaneMaximizeButtonWindowNotFocusedState",
+    "warning: retrying connection to db.example.org:5432 (attempt failed)",
+];
 
 /// Corpus sub-run: every corpus paragraph (sharded over workers) x a width
 /// ladder (every width 1..=100 in the thorough tier) x 4 variants; `f` builds
@@ -266,7 +304,7 @@ pub fn corpus_subrun(cfg: &RunCfg, w: &mut Worker, mut f: impl FnMut(usize, &[St
         w.note_subrun(
             "corpus",
             &format!(
-                "{} paragraphs from /repo/README.md, CHANGELOG.md and the doc comments / code lines of /repo/src/*.rs x {} widths x 4 option variants (sharded; this worker ran {})",
+                "{} paragraphs from /repo/README.md, CHANGELOG.md, the doc comments / code lines of /repo/src/*.rs and the embedded realistic-document snippets (URLs, lists, dates, emoji sequences, tabs, coloured log lines ...) x {} widths x 4 option variants (sharded; this worker ran {})",
                 paras.len(),
                 widths.len(),
                 n
